@@ -63,6 +63,10 @@ void vf_region_end(int);
 uint64_t vf_region_outer_stores();
 uint64_t vf_region_bad();
 
+// C16: run fn(ctx) as "one of many concurrent lookups". Engine: executed once inside a footprint region.
+// Native replay: executed simultaneously by several threads (built with -fsanitize=thread).
+void vf_concurrently(void (*fn)(void *), void * ctx);
+
 // exception class of the last throw: 1 runtime_error, 2 logic_error, 3 bad_alloc/length_error, 4 other
 bool vf_thrown_is(int cls);
 
